@@ -111,6 +111,6 @@ SUBCHECKS = [
     SubCheck("direct_vs_exact_geodesic", check_direct, strategy=cases, nontrivial=lambda c: c["s"] > 1.0, classes=_classes,
              quick=3000, thorough=300000, shards_quick=4, shards_thorough=16,
              seq_groups=[["ell"], ["lat1", "lon1"], ["az"], ["s"], ["kind"]],
-             rule="vincdir end point within 1 mm of the quadrature geodesic, reverse azimuth within 1e-8 deg (end point > 1 deg "
+             fresh=(8, 64, 3), rule="vincdir end point within 1 mm of the quadrature geodesic, reverse azimuth within 1e-8 deg (end point > 1 deg "
                   "from a pole), angle classes == decimal values"),
 ]
